@@ -141,9 +141,22 @@ def message_term(ctx: Ctx, f: FuncInfo, e: ast.expr):
     I = ctx.I
     cn = Canon(I, f)
     t = cn.tree(e)
+    mcls = ctx.cls("aiomysensors.model.message.Message")
+    if isinstance(t, ast.Call) and isinstance(t.func, ast.Attribute) and norm(t.func.value) == "In" and not t.args and all(k.arg for k in t.keywords):
+        # `message.<copy>(field=..)`: a method of Message that rebuilds the message from all its own fields updated by
+        # the keywords (`type(self)(**{**vars(self), **changes})`, `replace(self, **changes)`)
+        m_ = mcls.find_method(t.func.attr)
+        rets_ = [r_ for r_ in ctx.own_nodes(m_) if isinstance(r_, ast.Return)] if m_ is not None else []
+        if m_ is not None and len(rets_) == 1 and m_.node.args.kwarg is not None and not m_.positional_params[1:]:
+            kw_ = m_.node.args.kwarg.arg
+            sf_ = m_.positional_params[0]
+            if norm(rets_[0].value) in (f"type({sf_})(**{{**vars({sf_}), **{kw_}}})", f"{mcls.name}(**{{**vars({sf_}), **{kw_}}})", f"replace({sf_}, **{kw_})", f"dataclasses.replace({sf_}, **{kw_})", f"copy.replace({sf_}, **{kw_})"):
+                given_ = {k.arg: norm(k.value) for k in t.keywords}
+                if set(given_) <= set(FIELDS):
+                    return tuple(given_.get(p_, f"In.{p_}") for p_ in FIELDS)
     if not (isinstance(t, ast.Call) and norm(t.func) == "Message"):
         return None
-    init = ctx.cls("aiomysensors.model.message.Message").find_method("__init__")
+    init = mcls.find_method("__init__")
     pos = init.positional_params[1:]
     given: dict = {}
     for p, a in zip(pos, t.args):
@@ -236,7 +249,7 @@ def reply_table(ctx: Ctx, chk) -> None:
         term = message_term(ctx, f, arg) if arg is not None else None
         if term is None and arg is not None and not (isinstance(arg, ast.Name) and arg.id in f.params):
             cn_ = Canon(I, f).canon(arg)
-            if " if " in cn_ or cn_.startswith(("None", "(")) or "[" in cn_:
+            if " if " in cn_.split("(")[0] or cn_.startswith(("None", "(")) or (cn_.endswith("]") and "(" not in cn_):
                 # a value picked at run time (a conditional expression, an element of a table ...): which message it is
                 # is not read off this call
                 raise AnalysisError(f"REPLY-TABLE: `{norm(call)[:70]}` in {f.qualname} sends `{cn_[:70]}` - not a Message construction visible at the call ({loc})")
